@@ -403,7 +403,7 @@ class ServerBase:
 
             try:
                 outgoing[0].send((outgoing[1], outgoing[2]))
-            except (EOFError, ConnectionResetError):
+            except (EOFError, OSError):
                 self.handle_disconnect(outgoing[0])
                 _logger.warning('Connection reset while sending message.')
                 continue
